@@ -15,11 +15,32 @@ def norm_i(t):
     return T.rename_syms(t, m) if m else t
 
 
+def is_seq(x):
+    """A sequence of batches the analyser can describe by one generic element and an iteration range: a comprehension-built list
+    or a generator expression."""
+    return isinstance(x, VList) or (isinstance(x, VUnknown) and x.tag == "genexp" and getattr(x, "comp_iter", None) is not None)
+
+
+def _gather_of_slice(t):
+    """x[p[a:b]] = x[p][a:b]: rows gathered by a slice of an index vector are that slice of the gathered rows."""
+    if t is None:
+        return None
+
+    def fn(a):
+        if isinstance(a, T.App) and a.op == "index" and len(a.args[1]) == 1 and isinstance(a.args[1][0], tuple) and a.args[1][0][0] == "adv":
+            inner = a.args[1][0][1].single_atom() if hasattr(a.args[1][0][1], "single_atom") else None
+            if isinstance(inner, T.App) and inner.op == "index" and len(inner.args[1]) == 1 and isinstance(inner.args[1][0], tuple) and inner.args[1][0][0] == "slice":
+                return T.app("index", T.app("index", a.args[0], (("adv", inner.args[0]),)), inner.args[1])
+        return None
+
+    return T.subst(t, fn)
+
+
 def batch_desc(lst):
-    """(element term with loop symbol 'i', iteration range) of a comprehension-built batch list."""
-    o = lst.obj
+    """(element term with loop symbol 'i', iteration range) of a comprehension-built batch list / generator expression."""
+    o = lst.obj if isinstance(lst, VList) else lst
     el = o.elem
-    return norm_i(el.term) if isinstance(el, VTens) else None, getattr(o, "comp_iter", None)
+    return _gather_of_slice(norm_i(el.term)) if isinstance(el, VTens) else None, getattr(o, "comp_iter", None)
 
 
 def _known(t):
@@ -83,7 +104,7 @@ def run(ck):
                              "without its row axis, and the batch's bases are then sliced letter by letter (IndexError in the gradient)", key="C07.R1|_shuffle_data|ndarray-indexed-by-tensor")
                 srcs = getattr(r, "sources", None)
                 want_n = 3 if c["bases"] else 2
-                if isinstance(r, VUnknown) and srcs is not None and len(srcs) == want_n and isinstance(srcs[1], VTens) and isinstance(srcs[0], VList) and not c["same"]:
+                if isinstance(r, VUnknown) and srcs is not None and len(srcs) == want_n and isinstance(srcs[1], VTens) and is_seq(srcs[0]) and not c["same"]:
                     # the negative batches as one tensor: zip() walks its first axis, so it holds shape[0] batches of shape[1] rows
                     # each - num_batches batches of neg_batch_size rows is what the epoch needs
                     sh_ = [str(d) for d in (srcs[1].shape or ())]
@@ -94,8 +115,8 @@ def run(ck):
                     elif len(sh_) == 3:
                         ck.undecided("C07.R6", inst + ":num_batches negative batches of neg_batch_size rows", ssite, "the negative batches are one tensor of shape (%s): its first two sizes are not recognised" % ", ".join(sh_))
                 neg_slab = bool(isinstance(r, VUnknown) and srcs is not None and len(srcs) == want_n and isinstance(srcs[1], VTens) and not c["same"]
-                                and len(srcs[1].shape or ()) == 3 and all(isinstance(x, VList) for k_, x in enumerate(srcs) if k_ != 1))
-                if not neg_slab and (not isinstance(r, VUnknown) or srcs is None or len(srcs) != want_n or not all(isinstance(x, VList) for x in srcs)):
+                                and len(srcs[1].shape or ()) == 3 and all(is_seq(x) for k_, x in enumerate(srcs) if k_ != 1))
+                if not neg_slab and (not isinstance(r, VUnknown) or srcs is None or len(srcs) != want_n or not all(is_seq(x) for x in srcs)):
                     ck.undecided("C07.R1", inst, ssite, "the batches are not returned as zip(<%d comprehension-built lists>)" % want_n)
                     continue
                 pos_t, pos_r = batch_desc(srcs[0])
